@@ -44,7 +44,7 @@ ID = 'C20'
 RULE = ('ValueMap arrays are all sequences up to the length bound over the entry alphabet '
         '(literals in all four notations, closed/open/degenerate ranges, the unclaimed marker, '
         'entries at the type limits, malformed entries); each is combined with Values arrays of '
-        'equal, shorter and longer size and with duplicates, values_default None/"dflt", no '
+        'equal, shorter and longer size and with duplicates, values_default None/"dflt"/"" (empty), no '
         'ValueMap at all, the 8 integer types and the 5 element kinds; probe values are every '
         'value of the type (8-bit; 16-bit in family wide) or every bound of every entry, +-1, the '
         'type limits and 0/+-1. Not a full product: Values of other than equal size (family '
@@ -548,7 +548,7 @@ def shape(spec):
         if len(set(vals)) != len(vals):
             parts.append('dup')
     if spec['dflt'] is not None:
-        parts.append('dflt')
+        parts.append('dflt' if spec['dflt'] else 'dflt-empty')
     if spec['type'] != 'uint8':
         parts.append('type=' + spec['type'])
     if spec['kind'] != 'prop':
@@ -734,7 +734,7 @@ def record(spec, res, acc, reducer):
 def values_variants(n):
     """(Values array, values_default) variants for a ValueMap of n entries, family sizes"""
     out = []
-    for d in (None, DFLT):
+    for d in (None, DFLT, ''):           # '' is a given default (falsy but not None)
         if n >= 1:
             out.append((VALSTR[:n - 1], d))
         if n >= 2:
